@@ -31,6 +31,7 @@ replayed on the real formatter and repaired by `fix:` commits in /repo (model up
 * C08-F3 `-(-a)` ↦ `--a`, `!(!a)` ↦ `!!a` (syntax errors)              (7a6d532)
 * C08-F4 `(a + b) :: c` ↦ `a + b :: c` = `a + (b :: c)` …              (8067f9b, parser)
 * C08-F2 `"q\"uote"` ↦ `"q"uote"`                                      (b0a5193)
+* C08-F6 `(a.b) < c` ↦ `a.b < c` (syntax error: `<` after a member name)  (0291c0a)
 What remains (C08-F5, open: the golden test `assert_reprint_expr("1 + (1 + 1)", "1 + 1 + 1")`,
 source_printer.rs tests, pins it): `a ⊕ (b ⊕ c)` with ⊕ ∈ {+, *, &&, ||} is printed `a ⊕ b ⊕ c`
 and read back as `(a ⊕ b) ⊕ c` — another tree, the same value. -/
@@ -109,15 +110,28 @@ theorem paren_insensitive (ts : List Tok) (e : Expr) (h : parseE ts = some e) :
     (by simp only [fuelFor, List.length_cons, List.length_append, List.length_nil]; omega)
   simp [parseE, parseFuel, this]
 
+/-- C08-F6 (fixed by 0291c0a): `(a.b) < c` was printed `a.b < c`; after a member name the parser
+takes `<` for the start of type arguments, so the output did not parse. The printer now keeps the
+parentheses; the parser model still rejects the unparenthesised text. -/
+theorem member_name_before_lt :
+    printE (.binary .lt (.post a 0 true) b) = [.lp, .atom 0, .post 0 true, .rp, .op .lt, .atom 1] ∧
+    parseE (printE (.binary .lt (.post a 0 true) b)) = some (.binary .lt (.post a 0 true) b) ∧
+    parseE (printE (.binary .lt (.unary .neg (.post a 0 true)) b)) =
+      some (.binary .lt (.unary .neg (.post a 0 true)) b) ∧
+    parseE [.atom 0, .post 0 true, .op .lt, .atom 1] = none ∧
+    parseE [.atom 0, .post 0 true, .op .le, .atom 1] = some (.binary .le (.post a 0 true) b) ∧
+    parseE [.atom 0, .post 0 false, .op .lt, .atom 1] = some (.binary .lt (.post a 0 false) b) := by
+  decide
+
 /-- does the printer take the right-operand shortcut at the node `binary o l r`? -/
 def usesShortcut (o : BinOp) (l r : Expr) : Bool :=
   l.prec != 4 + o.pprec && r.prec == 4 + o.pprec && shortcutOk o r
 
 /-- no node of the expression takes the shortcut (i.e. no `x ⊕ (y ⊕ z)` with ⊕ ∈ {+,*,&&,||}, `x`
-not on ⊕'s level and `y` not on ⊕'s level). -/
+not on ⊕'s level and `y` not on ⊕'s level; C08-F5). -/
 def NoShortcut : Expr → Bool
   | .atom _ | .ifElse _ | .matchE _ => true
-  | .post e _ => NoShortcut e
+  | .post e _ _ => NoShortcut e
   | .unary _ e => NoShortcut e
   | .lambda _ b => NoShortcut b
   | .binary o l r => NoShortcut l && NoShortcut r && !usesShortcut o l r
@@ -126,6 +140,13 @@ def NoShortcut : Expr → Bool
 theorem plevel_eq (o : BinOp) : o.plevel = 4 - o.pprec := by cases o <;> rfl
 
 theorem pprec_le4 (o : BinOp) : o.pprec ≤ 4 := by cases o <;> decide
+
+theorem lParen_true {o : BinOp} {l : Expr} (h1 : l.prec ≠ 4 + o.pprec) (h2 : l.prec ≥ 4 + o.pprec) :
+    lParen o l = true := by
+  unfold lParen
+  split
+  · rfl
+  · simp [h1, needParen, h2]
 
 /-- **On the fixed code the side condition `RT` is implied by "no shortcut taken"**: every other
 parenthesisation decision of the printer (precedence classes 0/1/2/4–8/10/11/12) agrees with the
@@ -136,13 +157,13 @@ theorem rt_of_noShortcut (e : Expr) (h : NoShortcut e = true) : RT e = true := b
   | ifElse k => rfl
   | matchE k => rfl
   | lambda k b ih => simp only [NoShortcut] at h; simp only [RT]; exact ih h
-  | post e p ih =>
+  | post e p fld ih =>
     simp only [NoShortcut] at h
     simp only [RT, Bool.and_eq_true, Bool.or_eq_true, decide_eq_true_eq]
     refine ⟨ih h, ?_⟩
     cases e with
     | atom a => right; simp [Expr.lvl, Expr.operandOk]
-    | post e' p' => right; simp [Expr.lvl, Expr.operandOk]
+    | post e' p' f' => right; simp [Expr.lvl, Expr.operandOk]
     | unary u' e' => left; simp [needParen, Expr.prec]
     | binary o l r => left; simp [needParen, Expr.prec]; omega
     | ifElse k => left; simp [needParen, Expr.prec]
@@ -154,7 +175,7 @@ theorem rt_of_noShortcut (e : Expr) (h : NoShortcut e = true) : RT e = true := b
     refine ⟨ih h, ?_⟩
     cases e with
     | atom a => right; simp [Expr.lvl, Expr.operandOk]
-    | post e' p' => right; simp [Expr.lvl, Expr.operandOk]
+    | post e' p' f' => right; simp [Expr.lvl, Expr.operandOk]
     | unary u' e' => left; simp [needParen, Expr.prec]
     | binary o l r => left; simp [needParen, Expr.prec]; omega
     | ifElse k => left; simp [needParen, Expr.prec]
@@ -166,15 +187,15 @@ theorem rt_of_noShortcut (e : Expr) (h : NoShortcut e = true) : RT e = true := b
     have hpl := plevel_eq o
     have hp4 := pprec_le4 o
     simp only [RT, Bool.and_eq_true, Bool.or_eq_true, decide_eq_true_eq]
-    refine ⟨⟨⟨ihl hl, ihr hr⟩, ?_⟩, ?_⟩
+    refine ⟨⟨⟨⟨ihl hl, ihr hr⟩, ?_⟩, ?_⟩, ?_⟩
     · -- left operand
       cases l with
       | atom a => right; simp only [Expr.lvl, Expr.operandOk]; exact ⟨trivial, by omega⟩
-      | post e p => right; simp only [Expr.lvl, Expr.operandOk]; exact ⟨trivial, by omega⟩
+      | post e p f' => right; simp only [Expr.lvl, Expr.operandOk]; exact ⟨trivial, by omega⟩
       | unary u e => right; simp only [Expr.lvl, Expr.operandOk]; exact ⟨trivial, by omega⟩
-      | ifElse k => left; simp [lParen, needParen, Expr.prec]; omega
-      | matchE k => left; simp [lParen, needParen, Expr.prec]; omega
-      | lambda k b => left; simp [lParen, needParen, Expr.prec]; omega
+      | ifElse k => left; exact lParen_true (by simp [Expr.prec]; omega) (by simp [Expr.prec]; omega)
+      | matchE k => left; exact lParen_true (by simp [Expr.prec]; omega) (by simp [Expr.prec]; omega)
+      | lambda k b => left; exact lParen_true (by simp [Expr.prec]; omega) (by simp [Expr.prec]; omega)
       | binary ol l1 l2 =>
         have hol := plevel_eq ol
         have := pprec_le4 ol
@@ -183,12 +204,12 @@ theorem rt_of_noShortcut (e : Expr) (h : NoShortcut e = true) : RT e = true := b
           have h1 : ¬ (4 + ol.pprec = 4 + o.pprec) := by omega
           have h2 : 4 + ol.pprec ≥ 4 + o.pprec := by omega
           have hlp : (Expr.binary ol l1 l2).prec = 4 + ol.pprec := rfl
-          simp only [lParen, needParen, hlp, h1, h2, if_false, if_true, decide_true]
+          exact lParen_true (by rw [hlp]; exact h1) (by rw [hlp]; exact h2)
         · right; simp only [Expr.lvl, Expr.operandOk]; exact ⟨trivial, by omega⟩
     · -- right operand
       cases r with
       | atom a => right; simp only [Expr.lvl, Expr.operandOk]; exact ⟨trivial, by omega⟩
-      | post e p => right; simp only [Expr.lvl, Expr.operandOk]; exact ⟨trivial, by omega⟩
+      | post e p f' => right; simp only [Expr.lvl, Expr.operandOk]; exact ⟨trivial, by omega⟩
       | unary u e => right; simp only [Expr.lvl, Expr.operandOk]; exact ⟨trivial, by omega⟩
       | ifElse k =>
         left
@@ -226,6 +247,14 @@ theorem rt_of_noShortcut (e : Expr) (h : NoShortcut e = true) : RT e = true := b
               intro hh
               simp [hlq, hh.1, hh.2] at hsc
             simp only [rParen, needParen, hrp, hlq, hrne, h2, if_false, if_true, decide_true]
+    · -- a `<` never directly follows a member name: the printer keeps those parentheses
+      by_cases hlt : o = .lt
+      · subst hlt
+        by_cases hf : lastField l = true
+        · have hm := endsMember_of_lastField l hf
+          simp [lParen, hm]
+        · simp [hf]
+      · simp [hlt]
 
 /-- **Round trip for every expression in which the shortcut is not taken** (unbounded size,
 fuel-free): the printed tokens parse back to exactly the original tree. On the fixed code this is
@@ -235,10 +264,10 @@ theorem roundtrip_expr_noShortcut (e : Expr) (h : NoShortcut e = true) :
   roundtrip_expr_partial e (rt_of_noShortcut e h)
 
 -- non-vacuity: the side conditions are satisfiable by nested expressions of every level and class …
-example : NoShortcut (.binary .or (.binary .and a (.unary .not (.unary .not (.post (.post b 0) 1))))
-    (.binary .lt (.binary .plus a (.binary .mul (.post (.lambda 0 (.binary .plus b (.ifElse 1))) 2)
+example : NoShortcut (.binary .or (.binary .and a (.unary .not (.unary .not (.post (.post b 0 true) 1 false))))
+    (.binary .lt (.binary .plus a (.binary .mul (.post (.lambda 0 (.binary .plus b (.ifElse 1))) 2 true)
         (.binary .concat c (.matchE 0))))
-      (.binary .minus (.binary .minus a b) (.binary .plus b (.unary .neg (.post (.unary .neg c) 3)))))) = true := by
+      (.binary .minus (.binary .minus a b) (.binary .plus b (.unary .neg (.post (.unary .neg c) 3 true)))))) = true := by
   decide
 example : NoShortcut (.binary .mul a (.binary .div b c)) = true := by decide
 -- … and exclude exactly the remaining witness
@@ -247,8 +276,8 @@ example : NoShortcut (.binary .plus a (.binary .plus b c)) = false ∧
 -- the concrete parser agrees with the theorems on samples
 example : parseE (printE (.binary .minus a (.binary .minus b (.unary .neg (.binary .plus a c))))) =
     some (.binary .minus a (.binary .minus b (.unary .neg (.binary .plus a c)))) := by decide
-example : printE (.post (.lambda 0 (.binary .plus b (.ifElse 1))) 2) =
-    [.lp, .lam 0, .atom 1, .op .plus, .lp, .kwIf 1, .rp, .rp, .post 2] := by decide
+example : printE (.post (.lambda 0 (.binary .plus b (.ifElse 1))) 2 true) =
+    [.lp, .lam 0, .atom 1, .op .plus, .lp, .kwIf 1, .rp, .rp, .post 2 true] := by decide
 example : parseE [.lp, .atom 0, .op .plus, .atom 1, .rp] = some (.binary .plus a b) := by decide
 
 /-! ## String literals -/
